@@ -24,6 +24,10 @@ import (
 //go:embed baseline_funcs.txt
 var baselineFuncs string
 
+// fieldAlias maps (struct type, field name in this tree) to the field's name in the reference tree, for unexported
+// struct fields that were renamed (matched by name first, then by type and position among the unmatched ones).
+var fieldAlias = map[string]map[string]string{}
+
 // fnAlias maps a function to the baseline key it stands for.
 var fnAlias = map[*ssa.Function]string{}
 
@@ -138,13 +142,130 @@ func (p *Program) topLevel() map[string]*ssa.Function {
 	return out
 }
 
+// structLines lists the fields of every named struct type of the module: "S <cfg> <type> <index> <name> <type of field>".
+func structLines(p *Program) []string {
+	var out []string
+	for _, pk := range p.Pkgs {
+		if !strings.HasPrefix(pk.PkgPath, modPath) {
+			continue
+		}
+		sc := pk.Types.Scope()
+		for _, nm := range sc.Names() {
+			tn, ok := sc.Lookup(nm).(*types.TypeName)
+			if !ok {
+				continue
+			}
+			st, ok := tn.Type().Underlying().(*types.Struct)
+			if !ok {
+				continue
+			}
+			for i := 0; i < st.NumFields(); i++ {
+				out = append(out, fmt.Sprintf("S\t%s\t%s\t%d\t%s\t%s", p.Cfg.String(), typeName(tn.Type()), i, st.Field(i).Name(), types.TypeString(st.Field(i).Type(), nil)))
+			}
+		}
+	}
+	sort.Strings(out)
+	return out
+}
+
+// resolveFieldRenames fills fieldAlias for the loaded program.
+func (p *Program) resolveFieldRenames() {
+	type bf struct {
+		idx       int
+		name, typ string
+	}
+	base := map[string][]bf{}
+	for _, ln := range strings.Split(baselineFuncs, "\n") {
+		parts := strings.Split(ln, "\t")
+		if len(parts) == 6 && parts[0] == "S" && parts[1] == p.Cfg.String() {
+			var i int
+			fmt.Sscan(parts[3], &i)
+			base[parts[2]] = append(base[parts[2]], bf{i, parts[4], parts[5]})
+		}
+	}
+	for _, pk := range p.Pkgs {
+		if !strings.HasPrefix(pk.PkgPath, modPath) {
+			continue
+		}
+		sc := pk.Types.Scope()
+		for _, nm := range sc.Names() {
+			tn, ok := sc.Lookup(nm).(*types.TypeName)
+			if !ok {
+				continue
+			}
+			st, ok := tn.Type().Underlying().(*types.Struct)
+			if !ok {
+				continue
+			}
+			tname := typeName(tn.Type())
+			bfs := base[tname]
+			if len(bfs) == 0 {
+				continue
+			}
+			baseNames := map[string]bool{}
+			for _, b := range bfs {
+				baseNames[b.name] = true
+			}
+			curNames := map[string]bool{}
+			for i := 0; i < st.NumFields(); i++ {
+				curNames[st.Field(i).Name()] = true
+			}
+			used := map[string]bool{}
+			for i := 0; i < st.NumFields(); i++ {
+				f := st.Field(i)
+				if baseNames[f.Name()] {
+					continue
+				}
+				ts := types.TypeString(f.Type(), nil)
+				var cands []bf
+				for _, b := range bfs {
+					if !curNames[b.name] && !used[b.name] && b.typ == ts {
+						cands = append(cands, b)
+					}
+				}
+				pick := -1
+				if len(cands) == 1 {
+					pick = 0
+				} else {
+					for k, c := range cands {
+						if c.idx == i {
+							pick = k
+						}
+					}
+				}
+				if pick < 0 {
+					continue
+				}
+				used[cands[pick].name] = true
+				if fieldAlias[tname] == nil {
+					fieldAlias[tname] = map[string]string{}
+				}
+				if fieldAlias[tname][f.Name()] == "" {
+					fieldAlias[tname][f.Name()] = cands[pick].name
+					aliasNotes = append(aliasNotes, fmt.Sprintf("[%s] field %s.%s of the reference tree is %s.%s in this tree", p.Cfg, tname, cands[pick].name, tname, f.Name()))
+				}
+			}
+		}
+	}
+}
+
+// aliasedField returns the reference-tree name of field `name` of struct type tname.
+func aliasedField(tname, name string) string {
+	if m := fieldAlias[tname]; m != nil {
+		if a, ok := m[name]; ok {
+			return a
+		}
+	}
+	return name
+}
+
 func baselineLines(p *Program) []string {
 	var out []string
 	for k, f := range p.topLevel() {
 		out = append(out, p.Cfg.String()+"\t"+k+"\t"+fingerprint(f))
 	}
 	sort.Strings(out)
-	return out
+	return append(out, structLines(p)...)
 }
 
 // firstParamNamed returns the name of the named type (possibly behind a pointer) of f's first parameter (the receiver for methods).
@@ -164,6 +285,7 @@ func firstParamNamed(f *ssa.Function) string {
 
 // resolveRenames fills fnAlias for the loaded program.
 func (p *Program) resolveRenames() {
+	p.resolveFieldRenames()
 	base := map[string]string{}
 	for _, ln := range strings.Split(baselineFuncs, "\n") {
 		parts := strings.Split(ln, "\t")
@@ -230,4 +352,67 @@ func (p *Program) resolveRenames() {
 		})
 	}
 	sort.Strings(aliasNotes)
+}
+
+// devirt maps a method of an interface declared in package pogreb to the only module method that implements it
+// (a one-implementation interface introduced as an abstraction does not hide the callee from the rules).
+var devirt = map[*types.Func]*ssa.Function{}
+
+func (p *Program) resolveDevirt() {
+	if p.Main == nil || p.SSA == nil {
+		return
+	}
+	var named []*types.Named
+	for _, pk := range p.Pkgs {
+		if !strings.HasPrefix(pk.PkgPath, modPath) {
+			continue
+		}
+		sc := pk.Types.Scope()
+		for _, nm := range sc.Names() {
+			if tn, ok := sc.Lookup(nm).(*types.TypeName); ok {
+				if n, ok := tn.Type().(*types.Named); ok && !types.IsInterface(n) {
+					named = append(named, n)
+				}
+			}
+		}
+	}
+	sc := p.Main.Types.Scope()
+	for _, nm := range sc.Names() {
+		tn, ok := sc.Lookup(nm).(*types.TypeName)
+		if !ok {
+			continue
+		}
+		iface, ok := tn.Type().Underlying().(*types.Interface)
+		if !ok || iface.NumMethods() == 0 {
+			continue
+		}
+		var impls []types.Type
+		for _, n := range named {
+			switch {
+			case types.Implements(n, iface):
+				impls = append(impls, n)
+			case types.Implements(types.NewPointer(n), iface):
+				impls = append(impls, types.NewPointer(n))
+			}
+		}
+		if len(impls) != 1 {
+			continue
+		}
+		for i := 0; i < iface.NumMethods(); i++ {
+			m := iface.Method(i)
+			sel := p.SSA.MethodSets.MethodSet(impls[0]).Lookup(m.Pkg(), m.Name())
+			if sel == nil {
+				continue
+			}
+			if fn := p.SSA.MethodValue(sel); fn != nil {
+				// promoted methods are wrappers: use the declared method when there is one
+				if obj, ok := sel.Obj().(*types.Func); ok {
+					if decl := p.SSA.FuncValue(obj); decl != nil {
+						fn = decl
+					}
+				}
+				devirt[m] = fn
+			}
+		}
+	}
 }
